@@ -12,7 +12,7 @@ import (
 func init() {
 	Registry["C05"] = C05
 	Metas["C05"] = Meta{
-		Explanation: "Decides the structural clauses of C05 on every path of the compute core under each constant mode (Store/LoadAndStore/LoadAndDelete/Delete, LoadOrStore/LoadOrCompute, Compute): (F1) the user function is called at most once per call including across internal retries, exactly once in the unconditional modes, and in the load-if-exists mode exactly on the returns that report loaded=false and never on those reporting loaded=true; (F2) it is called with the bucket lock held and the post-lock validation passed, told loaded=true only after a key-equality hit and loaded=false only at the end of the chain, and its result is committed before the lock is released; (F3) the API wrappers select the documented mode and LoadOrCompute's adapter calls the user's function exactly once; (F4, cache layer) each get-or-create / read-modify-write method decides through an atomic read-modify-write of the underlying map, never mutates unconditionally after an observation, and on every evaluated abstract path calls the user's function at most once (exactly once for Compute) and only inside the read-modify-write closure. NOT decided: that the lock serialises (C13/C14/C03 decide its shape), schedules.",
+		Explanation: "Decides the structural clauses of C05 on every path of the compute core under each constant mode (Store/LoadAndStore/LoadAndDelete/Delete, LoadOrStore/LoadOrCompute, Compute): (F1) the user function is called at most once per call including across internal retries, exactly once in the unconditional modes, and in the load-if-exists mode exactly on the returns that report loaded=false and never on those reporting loaded=true; (F2) it is called with the bucket lock held and the post-lock validation passed, told loaded=true only after a key-equality hit and loaded=false only at the end of the chain, and its result is committed before the lock is released; (F3) the API wrappers select the documented mode and LoadOrCompute's adapter calls the user's function exactly once; (F4, cache layer) each get-or-create / read-modify-write method decides through an atomic read-modify-write of the underlying map, never mutates unconditionally after an observation, and on every evaluated abstract path calls the user's function at most once (exactly once for Compute) and only inside the read-modify-write closure. Restated premises: (F5) equal keys hash equally (C10.H); (F6) the expiry predicates have the canonical shape (C01.T1); (F7) the post-lock validation, the copy and every slot write respect the bucket lock (C03/C04 P3, P5, P6); (F8) the cache's own lazy deletions and sweeps remove only an entry they judged expired under the key's lock (C02.U2). NOT decided: that the lock serialises (C13/C14/C03 decide its shape), schedules.",
 		Rule:        "one obligation per (rule, specialisation, exit | call site | wrapper); non-trivial = decided by exploring the product of the CFG with the call-count/lock/validation automaton",
 		Assumptions: []string{"C13 (lock pairing) and C03/C04 (protocol shape) hold", "the mode parameters are compile-time constants at every call site (checked)"},
 	}
@@ -139,9 +139,26 @@ func C05(r *Run) *core.Report {
 	// F7: 'under the key's lock' means under a lock that a resize respects: the post-lock validation sees every running
 	// resize and the copy waits for every bucket's lock (restated from C03/C04 P3, P6) - otherwise an insert made under the
 	// lock is lost and a second caller creates the value again
-	n7 := borrow(rep, mapProtocol(r, "C03", 0), "C05.F7", "C03.P3", "C03.P6")
-	n7 += borrow(rep, mapProtocol(r, "C04", 1), "C05.F7", "C04.P3", "C04.P6")
+	// ... and every write of a slot is made under that lock (P5): a lock-free overwrite is not ordered with a running
+	// read-modify-write, whose result then replaces it (a lost update)
+	n7 := borrow(rep, mapProtocol(r, "C03", 0), "C05.F7", "C03.P3", "C03.P5", "C03.P6")
+	n7 += borrow(rep, mapProtocol(r, "C04", 1), "C05.F7", "C04.P3", "C04.P5", "C04.P6")
 	rep.MinCount("C05.F7", "premise obligations (validation and copy respect the lock)", n7, 8)
+	// F8: 'nobody else writes that key' includes the cache's own lazy deletion and sweeps: they remove only an entry
+	// they judged expired under the key's lock, or the value the one creator stored is dropped by a concurrent reader
+	// and the next caller creates it again (restated from C02.U2)
+	n8 := 0
+	for _, o := range C02(r).Obs {
+		if o.Trivial || o.Rule != "C02.U2" {
+			continue
+		}
+		c := *o
+		c.Construct = "[" + o.Rule + "] " + o.Construct
+		c.Rule = "C05.F8"
+		rep.Obs = append(rep.Obs, &c)
+		n8++
+	}
+	rep.MinCount("C05.F8", "premise obligations (removals judge under the lock)", n8, 60)
 	n5 := borrow(rep, C10(r), "C05.F5", "C10.H")
 	rep.MinCount("C05.F5", "premise obligations (hash agrees with ==)", n5, 4)
 	return rep
